@@ -85,6 +85,9 @@ var c14Kinds = []string{"json", "json", "arith", "arith", "pb", "pair", "tokens"
 
 func genGraphSpec(r *Rand) GraphSpec {
 	s := GraphSpec{Kind: c14Kinds[r.Intn(len(c14Kinds))], Churn: r.Intn(3)}
+	if r.Chance(1, 10) {
+		s.Churn = r.Range(40, 600)
+	}
 	if s.Kind == "grammar" {
 		s.G = genGrammar(r, &genOpts{MaxNodes: 12, Alphabet: "ab", Trims: true, MemoChance: 35, Names: true, Rich: r.Chance(1, 3)})
 		s.Interp = r.Bool()
@@ -245,6 +248,7 @@ func (*c14Prop) Run(cc Case) Verdict {
 	})
 	after := snapshotRoots()
 	v.Steps = info.Steps
+	v.Trace = info.TraceHash
 	v.Probes["context_switches"] = int64(info.Switches)
 	v.Probes["lock_spins"] = info.Spins
 	v.Faults["caller_abort"] = info.AbortsFired
